@@ -278,14 +278,13 @@ func (w *World) oracleC14RequestEnd(r *Request) {
 			}
 		}
 		for _, s := range w.Net.Sockets() {
-			or := w.reqs[s.Opener]
-			if s.Proc != w.proc || or == nil || or.C.Pod != c.Pod {
+			if s.Proc != w.proc || w.sockPod(s) != c.Pod.Idx {
 				continue
 			}
-			if or.C == c {
-				w.fail("C14.ports", "socket-left-after-own-del", "%s succeeded and no other sandbox of the pod exists, but the daemon still holds %s/%d which it opened for this very sandbox (request %s): the port is bound and nothing tracks it any more", who, s.Proto, s.Port, or.ID)
+			if by := w.overwrittenBy(s); by != "" {
+				w.fail("C14.ports", "socket-of-earlier-sandbox-left", "%s succeeded and no sandbox of the pod is left, but the daemon still holds %s/%d (opened by %s): while it was open the ADD %s of another sandbox of the same pod registered its own ports under the pod's name, after which nothing tracked this socket", who, s.Proto, s.Port, s.Opener, by)
 			} else {
-				w.fail("C14.ports", "socket-of-earlier-sandbox-left", "%s succeeded and no other sandbox of the pod exists, but the daemon still holds %s/%d which it opened for the earlier sandbox %s of the pod (request %s)", who, s.Proto, s.Port, short(or.C.ID), or.ID)
+				w.fail("C14.ports", "socket-left-after-own-del", "%s succeeded and no sandbox of the pod is left, but the daemon still holds %s/%d (opened by %s) although no other sandbox of the pod registered ports after it: the port is bound and nothing tracks it any more", who, s.Proto, s.Port, s.Opener)
 			}
 			return
 		}
@@ -428,10 +427,15 @@ func (w *World) oracleC14Final() {
 		}
 	}
 	for _, s := range w.Net.Sockets() {
-		if s.Proc == w.proc {
-			w.fail("C14.ports", "socket-left-after-final-teardown", "every pod has been torn down but the daemon still holds %s/%d (opened by %s)", s.Proto, s.Port, s.Opener)
-			return
+		if s.Proc != w.proc {
+			continue
 		}
+		if by := w.overwrittenBy(s); by != "" {
+			w.fail("C14.ports", "socket-of-earlier-sandbox-left", "every pod has been torn down but the daemon still holds %s/%d (opened by %s): while it was open the ADD %s of another sandbox of the same pod registered its own ports under the pod's name, after which nothing tracked this socket", s.Proto, s.Port, s.Opener, by)
+		} else {
+			w.fail("C14.ports", "socket-left-after-final-teardown", "every pod has been torn down but the daemon still holds %s/%d (opened by %s)", s.Proto, s.Port, s.Opener)
+		}
+		return
 	}
 	removed, added := diffLines(fb, fa)
 	if len(removed)+len(added) > 0 {
@@ -439,4 +443,41 @@ func (w *World) oracleC14Final() {
 		return
 	}
 	w.S.Stat("probe.final-table-equal")
+}
+
+// sockPod: the pod a socket of the daemon was opened for (-1 = unknown).
+func (w *World) sockPod(s *simnet.Socket) int {
+	if or := w.reqs[s.Opener]; or != nil {
+		return or.C.Pod.Idx
+	}
+	if p, ok := w.portPod[fmt.Sprintf("%s/%d", s.Proto, s.Port)]; ok {
+		return p // re-opened by the start-up code for the pod that had been given this port
+	}
+	return -1
+}
+
+// overwrittenBy: the ADD request of another sandbox of the same pod that opened ports while s was open ("" = none).
+func (w *World) overwrittenBy(s *simnet.Socket) string {
+	pod := w.sockPod(s)
+	if pod < 0 {
+		return ""
+	}
+	own := w.reqs[s.Opener]
+	for _, o := range w.podOpens[pod] {
+		if o.step > s.Step && (own == nil || o.req.C != own.C) {
+			return o.req.ID
+		}
+	}
+	return ""
+}
+
+type openEvent struct {
+	step int
+	req  *Request
+}
+
+func (w *World) onSockOpen(s *simnet.Socket) {
+	if or := w.reqs[s.Opener]; or != nil && or.Cmd == "ADD" {
+		w.podOpens[or.C.Pod.Idx] = append(w.podOpens[or.C.Pod.Idx], openEvent{s.Step, or})
+	}
 }
